@@ -107,6 +107,7 @@ def append_spec():
 
 
 def install(it):
+    it.quantified = True
     stdlib.install_clock(it)
     base_clock = it.ext_models["time.monotonic"]
 
